@@ -297,12 +297,25 @@ class TermDomain(Domain):
     # ---- calls -----------------------------------------------------------------------------------
     def call(self, it, name, args, store, term, frame):
         vals = [it.read_ref(store, a) for a in args]
+        # a reference to a reference (`&&Cow<str>` handed to a filter closure's comparison) denotes the value behind both
+        for i_, v_ in enumerate(vals):
+            k_ = 0
+            while isinstance(v_, Ref) and k_ < 4:
+                v_ = it.read_ref(store, v_)
+                k_ += 1
+            vals[i_] = v_
         self.cur_term = term
         if self.oracle is not None:
             r = self.oracle(self, it, name, args, vals, store)
             if r is not None:
                 return r
         r = self.std_models(it, name, args, vals, store)
+        if r is not None:
+            return r
+        r = self.opaque_option(it, name, args, vals, store)
+        if r is not None:
+            return r
+        r = self.opaque_try(it, name, args, vals, store)
         if r is not None:
             return r
         c = classify(name)
@@ -316,8 +329,88 @@ class TermDomain(Domain):
             r = it.std_call(name, args, store)
             if r is not None:
                 return r
-            return [(T("call:" + name, *vals), self.mutated_by(it, name, args, vals, store, term))]
+            return [(T("call:" + name, *[self.resolved(it, store, v) for v in vals]), self.mutated_by(it, name, args, vals, store, term))]
         return None
+
+    def resolved(self, it, store, v, depth=0):
+        """The value with the references inside it replaced by what they point at (`Some(&this_version)`): a term must
+        not mention stack slots, which mean nothing once the frame is gone."""
+        if depth > 4:
+            return v
+        if isinstance(v, Ref):
+            return self.resolved(it, store, it.read_ref(store, v), depth + 1)
+        if isinstance(v, Agg) and v.kind in ("adt", "tuple") and any(isinstance(f, (Ref, Agg)) for f in v.fields):
+            fs = tuple(self.resolved(it, store, f, depth + 1) for f in v.fields)
+            if fs != tuple(v.fields):
+                return Agg(v.kind, v.path, v.vi, v.vname, fs)
+        return v
+
+    OPTION_CLOSURE_METHODS = ("map", "and_then", "map_or", "map_or_else", "unwrap_or_else", "filter", "ok_or_else", "or_else",
+                              "is_some_and", "is_none_or", "inspect", "zip", "xor", "unwrap_or_default")
+
+    def opaque_try(self, it, name, args, vals, store):
+        """`?` on an opaque Option / Result term: split like a `match` - the payload is field0 of the term on either side."""
+        if not name.endswith(" as std::ops::Try>::branch") or not vals or not isinstance(vals[0], (T, Sym)):
+            return None
+        is_opt = name.startswith("<std::option::Option<")
+        if not is_opt and not name.startswith("<std::result::Result<"):
+            return None
+        d = T("discr", vals[0])
+        good = 1 if is_opt else 0
+        outs = []
+        for cont in (True, False):
+            st = store
+            pg = T("==", d, Const(good))
+            pb = T("==", d, Const(1 - good))
+            dg, db = self.decide(st, pg), self.decide(st, pb)
+            known = dg if dg is not None else (None if db is None else (not db))
+            if known is not None and known != cont:
+                continue
+            if known is None:
+                st = self.with_pc(st, pg, cont)
+                if not self.feasible(st):
+                    continue
+            if cont:
+                outs.append((enum("std::ops::ControlFlow", 0, "Continue", T("field0", vals[0])), st))
+            else:
+                outs.append((enum("std::ops::ControlFlow", 1, "Break", NONE if is_opt else err(T("field0", vals[0]))), st))
+        return outs or None
+
+    def opaque_option(self, it, name, args, vals, store):
+        """A closure-taking Option method on an opaque term (the Option an uninterpreted call returned): the term is split
+        like a `match` would split it - None, or Some(field0(term)) - and the method's own model runs on each side."""
+        if not (name.startswith("std::option::Option::<T>::") or name.startswith("core::option::Option::<T>::")):
+            return None
+        if name.rsplit("::", 1)[-1] not in self.OPTION_CLOSURE_METHODS or not vals or not isinstance(vals[0], (T, Sym)):
+            return None
+        from . import stdmodels as _sm
+        d = T("discr", vals[0])
+        outs = []
+        for is_some in (True, False):
+            st = store
+            p1 = T("==", d, Const(1))
+            p0 = T("==", d, Const(0))
+            d1, d0 = self.decide(st, p1), self.decide(st, p0)
+            known = d1 if d1 is not None else (None if d0 is None else (not d0))
+            if known is not None and known != is_some:
+                continue
+            if known is None:
+                st = self.with_pc(st, p1, is_some)
+                if not self.feasible(st):
+                    continue
+            conc = some(T("field0", vals[0])) if is_some else NONE
+            if isinstance(args[0], Ref):
+                st = it.write_ref(st, args[0], conc)
+                a2 = list(args)
+            else:
+                a2 = [conc] + list(args[1:])
+            r = _sm.call(it, name, a2, st)
+            if r is None:
+                r = it.std_call(name, a2, st)
+            if r is None:
+                return None
+            outs.extend(r)
+        return outs or None
 
     def mutated_by(self, it, name, args, vals, store, term):
         """An uninterpreted callee may write through a `&mut` it is given: a referent whose value is known (an aggregate,
